@@ -30,10 +30,13 @@ type vec struct {
 	Wire   hx.B   `json:"wire"`
 	Text   hx.B   `json:"text"`
 	Valid  bool   `json:"valid"`
-	PText  hx.B   `json:"ptext"`  // text of the name without its first label (context of packCtx)
+	PText  hx.B   `json:"ptext"` // text of the name without its first label (context of packCtx)
 	PValid bool   `json:"pvalid"`
 	Lead   int    `json:"lead"`  // classification: leading labels of the name that are fine on their own
 	PLead  int    `json:"plead"` // the same for the parent
+	FText  hx.B   `json:"ftext"` // the name with every ASCII letter in the other case (library spelling), its octets, its parent
+	FWire  hx.B   `json:"fwire"`
+	FPText hx.B   `json:"fptext"`
 	// helpers
 	Count  int     `json:"count"`
 	Split  []int   `json:"split"`
@@ -152,23 +155,55 @@ func expand(buf []byte, off int) ([]byte, error) {
 	}
 }
 
+// ctxStarts: where in the buffer the sequences of packCtx begin.  12 is behind a message header; PackDomainName / PackRR
+// are public and are given buffers of their own, so a name (and with it the target of a compression pointer) may sit at
+// offset 0 or 1, astride the one-octet limit of the pointer's low half (255 / 256), and astride the largest offset a
+// pointer can hold (16383): the names packed from 16370 on lie partly beyond it.
+var ctxStarts = []int{12, 0, 1, 255, 16370}
+
 // packCtx packs, with compression and ONE compression map as a message would, the parent of a name, the name,
 // and the name again.  Whether a name is accepted may not depend on what the map holds (C03: the packer accepts
 // exactly the valid names, so the library never emits a name it would itself reject), a refused name may leave
-// nothing behind, and what is written must expand to the name's wire form.
+// nothing behind, and what is written must expand to the name's wire form - wherever in the buffer the sequence
+// begins (ctxStarts), and also when the names that went before spell the shared labels in the other letter case
+// (sequence flipped-parent, name, flipped, name again: a pointer stands for the octets it points at, so it may only
+// replace labels that are octet for octet the same).
 func packCtx(v *vec, text string, valid bool, wire []byte, cls string, sum *hx.Summary) {
-	buf := make([]byte, 4096)
+	_ = cls
+	for _, start := range ctxStarts {
+		packCtxAt(v, text, valid, wire, start, false, sum)
+		if valid && len(v.FText) > 0 && (len(v.PText) == 0 || v.PValid) {
+			packCtxAt(v, text, valid, wire, start, true, sum)
+		}
+	}
+}
+
+func packCtxAt(v *vec, text string, valid bool, wire []byte, start int, flipped bool, sum *hx.Summary) {
+	buf := make([]byte, start+4096)
 	m := map[string]int{}
-	off := 12 // as in a message: names start behind the header
+	off := start
+	at := "" // where the sequence begins: part of the finding key unless it is the usual place
+	if start != 12 {
+		at = fmt.Sprintf("@%d", start)
+	}
+	stop := false
 	hist := "clean-map" // what the shared map has been through: part of the finding key
 	step := func(tag, name string, want bool, w []byte, lead int) {
+		if stop {
+			return
+		}
 		o2, err := dns.PackDomainName(name, buf, off, m, true)
-		tag = tag + ":" + hist
+		tag = tag + ":" + hist + at
 		if err != nil {
 			if lead > 0 {
 				hist = "after-refusal-behind-good-labels"
 			} else if hist == "clean-map" {
 				hist = "after-refusal-at-first-label"
+			}
+			if start != 12 {
+				// what a refusal leaves in the map is looked at (and known to be wrong) at offset 12; elsewhere the
+				// sequence ends with the first refusal
+				stop = true
 			}
 		}
 		if (err == nil) != want {
@@ -176,21 +211,30 @@ func packCtx(v *vec, text string, valid bool, wire []byte, cls string, sum *hx.S
 			if err == nil {
 				k = "names/pack-ctx-accepts-invalid:" + tag
 			}
-			sum.Mis(k, fmt.Sprintf("PackDomainName(%q, compress, shared map) as %s of the sequence parent,name,name: err=%v, spec accept=%v", name, tag, err, want), v)
+			sum.Mis(k, fmt.Sprintf("PackDomainName(%q, buf, %d, shared map, compress) as %s of the sequence beginning at %d: err=%v, spec accept=%v", name, off, tag, start, err, want), v)
 		}
 		if err != nil {
 			return
 		}
 		if got, e := expand(buf[:o2], off); e != nil {
-			sum.Mis("names/pack-ctx-unreadable:"+tag, fmt.Sprintf("octets written for %q (%s): %v", name, tag, e), v)
+			sum.Mis("names/pack-ctx-unreadable:"+tag, fmt.Sprintf("octets written at %d for %q (%s): %v", off, name, tag, e), v)
 		} else if want && w != nil && !bytes.Equal(got, w) {
-			sum.Mis("names/pack-ctx-octets:"+tag, fmt.Sprintf("octets written for %q (%s) expand to %v, spec %v", name, tag, got, w), v)
+			sum.Mis("names/pack-ctx-octets:"+tag, fmt.Sprintf("octets written at %d for %q (%s, sequence beginning at %d) expand to %v, spec %v", off, name, tag, start, got, w), v)
 		} else if _, _, e := dns.UnpackDomainName(buf[:o2], off); e != nil && len(got) <= 255 {
-			sum.Mis("names/pack-ctx-own-output-rejected:"+tag, fmt.Sprintf("UnpackDomainName refuses what PackDomainName wrote for %q (%s): %v", name, tag, e), v)
+			sum.Mis("names/pack-ctx-own-output-rejected:"+tag, fmt.Sprintf("UnpackDomainName refuses what PackDomainName wrote at %d for %q (%s): %v", off, name, tag, e), v)
 		}
 		off = o2
 	}
-	_ = cls
+	if flipped {
+		// only for a valid name under a valid parent: every step is accepted, the octets are the spec's
+		if len(v.FPText) > 0 {
+			step("flipped-parent", v.FPText.String(), true, nil, 0)
+		}
+		step("name-behind-flipped-parent", text, true, wire, 0)
+		step("flipped-behind-name", v.FText.String(), true, v.FWire.Bytes(), 0)
+		step("again-behind-flipped", text, true, wire, 0)
+		return
+	}
 	if len(v.PText) > 0 {
 		step("parent", v.PText.String(), v.PValid, nil, v.PLead)
 	}
@@ -426,6 +470,24 @@ type evRespell struct {
 	IsDN bool   `json:"isdn"` // IsDomainName(text)
 }
 
+// packseq: several names packed one behind the other into one buffer with one compression map, as the RRs of a message
+// are, beginning at any offset (PackDomainName and PackRR are public: offset 0 is as good as 12).  TLC reads each name
+// back out of the octets (Names!DecName follows the pointers) and compares with what the one reader of text reads.
+type seqItem struct {
+	Text     hx.B `json:"text"`
+	Compress bool `json:"compress"`
+	Off      int  `json:"off"` // where the name was put
+	Ok       bool `json:"ok"`
+	End      int  `json:"end"` // the offset PackDomainName returned
+}
+
+type evPackSeq struct {
+	Ev    string    `json:"ev"`
+	Start int       `json:"start"`
+	Items []seqItem `json:"items"`
+	Wire  hx.B      `json:"wire"` // the octets from Start on
+}
+
 type evHelpers struct {
 	Ev     string  `json:"ev"`
 	Text   hx.B    `json:"text"`
@@ -470,6 +532,31 @@ func obsRespell(s string) evRespell {
 	return e
 }
 
+func obsPackSeq(start int, texts []string, compress []bool) evPackSeq {
+	e := evPackSeq{Ev: "packseq", Start: start, Items: []seqItem{}}
+	n := start + 16
+	for _, t := range texts {
+		n += len(t) + 2
+	}
+	buf := make([]byte, n)
+	m := map[string]int{}
+	off := start
+	for i, t := range texts {
+		it := seqItem{Text: hx.FromString(t), Compress: compress[i], Off: off}
+		o2, err := dns.PackDomainName(t, buf, off, m, compress[i])
+		if err == nil {
+			it.Ok, it.End = true, o2
+			off = o2
+		}
+		e.Items = append(e.Items, it)
+		if err != nil {
+			break // what a refused name leaves in the map is another matter (known-findings.d/C03.txt)
+		}
+	}
+	e.Wire = hx.FromBytes(buf[start:off])
+	return e
+}
+
 func obsHelpers(s string) evHelpers {
 	e := evHelpers{Ev: "helpers", Text: hx.FromString(s), Count: dns.CountLabel(s), Split: dns.Split(s), Canon: hx.FromString(dns.CanonicalName(s))}
 	if e.Split == nil {
@@ -500,12 +587,14 @@ func obsCompare(sa, sb string) evCompare {
 // rerun: the inputs of recorded events through the real code again
 func rerun(in, out string) {
 	type anyEv struct {
-		Ev   string `json:"ev"`
-		Wire hx.B   `json:"wire"`
-		Off  int    `json:"off"`
-		Text hx.B   `json:"text"`
-		A    hx.B   `json:"a"`
-		B    hx.B   `json:"b"`
+		Ev    string    `json:"ev"`
+		Wire  hx.B      `json:"wire"`
+		Off   int       `json:"off"`
+		Text  hx.B      `json:"text"`
+		A     hx.B      `json:"a"`
+		B     hx.B      `json:"b"`
+		Start int       `json:"start"`
+		Items []seqItem `json:"items"`
 	}
 	w := hx.NewWriter(out)
 	defer w.Close()
@@ -522,6 +611,13 @@ func rerun(in, out string) {
 				w.Emit(obsHelpers(e.Text.String()))
 			case "compare":
 				w.Emit(obsCompare(e.A.String(), e.B.String()))
+			case "packseq":
+				var ts []string
+				var cs []bool
+				for _, it := range e.Items {
+					ts, cs = append(ts, it.Text.String()), append(cs, it.Compress)
+				}
+				w.Emit(obsPackSeq(e.Start, ts, cs))
 			default:
 				hx.Die("rerun: unknown event %q", e.Ev)
 			}
@@ -538,6 +634,81 @@ func b2i(b bool) int {
 		return 1
 	}
 	return 0
+}
+
+// spell writes labels as text: the characters that are syntax with a backslash, the octets outside 0x20..0x7e as \DDD
+// (raw = false: what UnpackDomainName writes) or as they are (raw = true: what a zone file in UTF-8 or Latin-1 holds -
+// to every reader of names in the library a text is a string of octets, never of runes).
+func spell(ls [][]byte, raw bool) string {
+	if len(ls) == 0 {
+		return "."
+	}
+	var t []byte
+	for _, l := range ls {
+		for _, c := range l {
+			switch {
+			case bytes.IndexByte([]byte(". '@;()\"\\"), c) >= 0:
+				t = append(t, '\\', c)
+			case (c < 32 || c > 126) && !raw:
+				t = append(t, '\\', '0'+c/100, '0'+c/10%10, '0'+c%10)
+			default:
+				t = append(t, c)
+			}
+		}
+		t = append(t, '.')
+	}
+	return string(t)
+}
+
+// uniSnips: octet strings that are letters to a reader of UTF-8 (with their other-case forms and the ASCII letters they
+// fold to), octets that are no UTF-8 at all, and U+FFFD, which a decoder puts in their place
+var uniSnips = []string{"\xc3\x89", "\xc3\xa9", "\x80", "\x81", "\xff", "\xe2\x84\xaa", "k", "K", "\xc5\xbf", "s", "S",
+	"\xc4\xb0", "i", "I", "\xc4\xb1", "\xce\xa3", "\xcf\x83", "\xcf\x82", "\xef\xbf\xbd", "\xc2\x80", "a", "0"}
+
+func uniLabel(r *rand.Rand) []byte {
+	var b []byte
+	for n := 1 + r.Intn(4); n > 0; n-- {
+		b = append(b, uniSnips[r.Intn(len(uniSnips))]...)
+	}
+	return b
+}
+
+// otherSpelling: the label with some of its octets changed the way a reader of runes would think harmless: ASCII letters
+// in the other case (that one IS harmless), octets above 0x7f with bit 0x20 flipped (the other case of a Latin-1 / Greek /
+// Cyrillic letter in UTF-8) or replaced by another such octet, k and s by the KELVIN SIGN and the LONG S
+func otherSpelling(l []byte, r *rand.Rand, ascii bool) []byte {
+	c := append([]byte(nil), l...)
+	for x := range c {
+		if r.Intn(3) != 0 {
+			continue
+		}
+		switch {
+		case c[x] >= 'a' && c[x] <= 'z':
+			c[x] -= 32
+		case c[x] >= 'A' && c[x] <= 'Z':
+			c[x] += 32
+		case c[x] >= 128 && !ascii && r.Intn(2) == 0:
+			c[x] ^= 0x20
+		case c[x] >= 128 && !ascii && r.Intn(4) == 0:
+			c[x] = byte(128 + r.Intn(128))
+		}
+	}
+	if !ascii && r.Intn(8) == 0 {
+		c = bytes.ReplaceAll(c, []byte("k"), []byte("\xe2\x84\xaa"))
+		c = bytes.ReplaceAll(c, []byte("s"), []byte("\xc5\xbf"))
+	}
+	if len(c) > 63 {
+		return append([]byte(nil), l...)
+	}
+	return c
+}
+
+func wireLen(ls [][]byte) int {
+	n := 1
+	for _, l := range ls {
+		n += 1 + len(l)
+	}
+	return n
 }
 
 func record(which, out string, n int) {
@@ -642,6 +813,59 @@ func recordOne(which string, i int, r *rand.Rand, w *hx.Writer, sump *hx.Summary
 			if target >= 200 && r.Intn(16) == 0 {
 				ls = crowdName(target)
 			}
+			if i%8 == 5 {
+				// names packed one behind the other over one compression map, beginning anywhere in the buffer: a base
+				// name, names under it, under one of its parents, the same in other letter case, unrelated ones
+				start := []int{0, 0, 1, 2, 12, 12, 254, 255, 256, r.Intn(600), r.Intn(600)}[r.Intn(11)]
+				if r.Intn(24) == 0 {
+					start = 16360 + r.Intn(30) // astride the largest offset a pointer can hold
+				}
+				base := randName([]int{5, 12, 30, 60}[r.Intn(4)])
+				if len(base) == 0 {
+					base = [][]byte{{byte('a' + r.Intn(26)), byte('A' + r.Intn(26))}}
+				}
+				flip := func(ls [][]byte) [][]byte {
+					o := make([][]byte, len(ls))
+					for j, l := range ls {
+						o[j] = otherSpelling(l, r, true)
+					}
+					return o
+				}
+				var texts []string
+				var comp []bool
+				for j, k := 0, 2+r.Intn(4); j < k; j++ {
+					var ls [][]byte
+					kind := r.Intn(6)
+					if j == 0 {
+						kind = r.Intn(3)
+					}
+					switch kind {
+					case 0:
+						ls = base
+					case 1:
+						ls = append(randName(1+r.Intn(20)), base...)
+					case 2:
+						ls = flip(base)
+					case 3:
+						ls = append(randName(1+r.Intn(20)), flip(base[r.Intn(len(base)):])...)
+					case 4:
+						ls = base[r.Intn(len(base)+1):]
+					default:
+						ls = randName(1 + r.Intn(20))
+					}
+					if wireLen(ls) > 255 {
+						continue
+					}
+					texts, comp = append(texts, spell(ls, r.Intn(8) == 0)), append(comp, r.Intn(8) != 0)
+				}
+				e := obsPackSeq(start, texts, comp)
+				seen[fmt.Sprint(start, texts)] = true
+				w.Emit(e)
+				if i < 8 {
+					sum.Sample(e)
+				}
+				return
+			}
 			if i%4 == 3 {
 				// the text side: the same kind of name in a random spelling
 				var t []byte
@@ -697,9 +921,18 @@ func recordOne(which string, i int, r *rand.Rand, w *hx.Writer, sump *hx.Summary
 				if r.Intn(10) == 0 {
 					ls = crowdName([]int{200, 253, 254, 255, 255}[r.Intn(5)])
 				}
+				if r.Intn(6) == 0 { // labels that are letters to a reader of UTF-8
+					ls = nil
+					for k := 1 + r.Intn(4); k > 0; k-- {
+						ls = append(ls, uniLabel(r))
+					}
+				}
 				s, _, err := dns.UnpackDomainName(enc(ls), 0)
 				if err != nil {
 					hx.Die("unpack of generated name failed: %v", err)
+				}
+				if r.Intn(4) == 0 {
+					s = spell(ls, true) // the octets outside ASCII as they are
 				}
 				if r.Intn(4) == 0 && s != "." {
 					s = s[:len(s)-1] // relative spelling
@@ -714,35 +947,44 @@ func recordOne(which string, i int, r *rand.Rand, w *hx.Writer, sump *hx.Summary
 					sum.Sample(e)
 				}
 			} else {
-				// related pair: common suffix with random case flips, different prefixes
+				// related pair: common suffix with random case flips, different prefixes; 1 in 4: the suffix is made of
+				// labels that are letters to a reader of UTF-8, and the other name has them changed as such a reader
+				// would think harmless (otherSpelling); 1 in 4: no prefixes, the two names differ in spelling only
+				uni := r.Intn(4) == 0
 				suf := randName([]int{1, 5, 20, 60}[r.Intn(4)])
+				if uni {
+					suf = nil
+					for k := 1 + r.Intn(3); k > 0; k-- {
+						suf = append(suf, uniLabel(r))
+					}
+				}
 				a := append(randName(1+r.Intn(40)), suf...)
 				if r.Intn(10) == 0 { // a crowded name against one of its own suffixes or a sibling of it
 					a = crowdName([]int{200, 253, 254, 255, 255}[r.Intn(5)])
 					suf = a[r.Intn(len(a)):]
 				}
+				whole := r.Intn(4) == 0
+				if whole {
+					a = suf
+				}
 				sufb := make([][]byte, len(suf))
 				for j, l := range suf {
-					c := append([]byte(nil), l...)
-					for x := range c {
-						if r.Intn(3) == 0 {
-							if c[x] >= 'a' && c[x] <= 'z' {
-								c[x] -= 32
-							} else if c[x] >= 'A' && c[x] <= 'Z' {
-								c[x] += 32
-							}
-						}
-					}
-					sufb[j] = c
+					sufb[j] = otherSpelling(l, r, r.Intn(2) == 0)
 				}
 				bb := append(randName(1+r.Intn(40)), sufb...)
-				if r.Intn(3) == 0 {
+				if whole || r.Intn(3) == 0 {
 					bb = sufb
+				}
+				if wireLen(a) > 255 || wireLen(bb) > 255 {
+					return
 				}
 				sa, _, e1 := dns.UnpackDomainName(enc(a), 0)
 				sb, _, e2 := dns.UnpackDomainName(enc(bb), 0)
 				if e1 != nil || e2 != nil {
 					return
+				}
+				if r.Intn(3) == 0 {
+					sa, sb = spell(a, true), spell(bb, true) // the octets outside ASCII as they are
 				}
 				e := obsCompare(sa, sb)
 				seen[sa+"|"+sb] = true
